@@ -78,4 +78,30 @@ def argmin [LT α] [DecidableLT α] : List α → Nat
   | v :: t => argminFrom t 1 0 v
 
 end
+
+/-! ### dicts with string keys and array values (the profile dictionaries of the output code) -/
+
+/-- a value stored in such a dict: a 1-D array, a 2-D array (row major), or `None` -/
+inductive PyVal (α : Type) where
+  | arr (l : List α)
+  | arr2 (rows : List (List α))
+  | none
+
+/-- python `d[k] = v` on a dict kept in insertion order: an existing key keeps its position and gets the new value, a new
+    key is appended -/
+def dictSet {β : Type} (d : List (String × β)) (k : String) (v : β) : List (String × β) :=
+  if d.any (fun e => e.1 == k) then d.map (fun e => if e.1 == k then (k, v) else e) else d ++ [(k, v)]
+
+/-- `M[i, :] = v` for a 2-D array (row major) and a 1-D value: the row is replaced when `v` has the row's length, filled
+    with the single entry of a `v` of length 1 (numpy's broadcast); otherwise numpy raises ValueError — totalised: `M` is
+    left as it is.  A row index beyond the array (IndexError in numpy) changes nothing either. -/
+def setRow {β : Type} (M : List (List β)) (i : Nat) (v : List β) : List (List β) :=
+  match M[i]? with
+  | .none => M
+  | some row =>
+    if v.length = row.length then M.set i v
+    else match v with
+      | [x] => M.set i (List.replicate row.length x)
+      | _ => M
+
 end Taurex.Gen.Np
